@@ -1,4 +1,327 @@
-import Uft.Model.Graph
+import Uft.Lemmas.Json
+import Uft.Lemmas.Graph
+/-
+C15 — Graph, flame-graph and Chrome exports are faithful projections of the trace.
+Property theorems only; helpers are in Lemmas/Json.lean and Lemmas/Graph.lean.
+
+Bytes are `Nat` values.  `fixed = true` is the code with the proposed repairs
+(findings F9 comm/cmdline escaping, F9b separator after the metadata lines, F9c flame
+count digits, S3 name_buf bound); `fixed = false` is /repo as it is.
+-/
 namespace Uft.C15
-theorem c15_tmp : Uft.Json.escapeChar 34 = [92, 34] := by decide
+open Uft.Json Uft.Graph
+
+/-! ## escaping -/
+
+/-- ∀ byte strings, the output of `print_json_escaped_char` over the string is a valid
+    JSON string body (ASCII only, no raw control byte, every backslash starts a legal
+    escape, no bare double quote). -/
+theorem c15_escape_valid (bs : List Nat) : validBody (escapeStr bs) = true := by
+  simp [validBody, escapeStr_body]
+
+/-- the same for bytes given as `UInt8` -/
+theorem c15_escape_valid_bytes (bs : List UInt8) : validBody (escapeStr (bs.map (·.toNat))) = true :=
+  c15_escape_valid _
+
+/-- the repaired footer escaping gives a valid string body for every stored command line -/
+theorem c15_cmdline_escape_valid (bs : List Nat) : validBody (escCmdline bs) = true := by
+  simp [validBody, escCmdline_body]
+
+/-- S3 repaired: with the guard `if (len < 6) break;` no store of the escape loop (nor the
+    final NUL) leaves `name_buf[2048]`, the buffer holds the escaped form of a prefix of the
+    name (cut between two escapes), which is a valid string body; names whose escaped form
+    has at most 2041 bytes are not cut at all. -/
+theorem c15_name_buf_safe (name : List Nat) :
+    (escapeName true name).oob = false ∧ (escapeName true name).term = false ∧
+    validBody (escapeName true name).out = true ∧
+    (∃ k, (escapeName true name).out = escapeStr (name.take k)) ∧
+    ((escapeStr name).length ≤ 2041 → (escapeName true name).out = escapeStr name) := by
+  obtain ⟨hi, k, hk⟩ := nameLoop_fixed name nbInit nbInit_inv
+  have hk' : (nameLoop true nbInit name).out = escapeStr (name.take k) := by simpa [nbInit] using hk
+  have hlen := hi.len
+  refine ⟨?_, ?_, ?_, ⟨k, ?_⟩, ?_⟩
+  · simp only [escapeName, hi.oob, cap, Bool.false_or]; exact decide_eq_false (by omega)
+  · simpa [escapeName] using hi.term
+  · simp [escapeName, hk', validBody, escapeStr_body]
+  · simpa [escapeName] using hk'
+  · intro h
+    have := (nameLoop_fits true 2041 (by omega) (fun _ => Nat.le_refl _) name nbInit nbInit_inv
+      (by simpa [nbInit] using h)).2
+    simpa [escapeName, nbInit] using this
+
+/-- the unrepaired loop is right as long as the escaped name has at most 2046 bytes -/
+theorem c15_name_buf_short_ok (name : List Nat) (h : (escapeStr name).length ≤ 2046) :
+    (escapeName false name).oob = false ∧ (escapeName false name).out = escapeStr name := by
+  obtain ⟨hi, ho⟩ := nameLoop_fits false 2046 (by omega) (fun h => by cases h) name nbInit nbInit_inv
+    (by simpa [nbInit] using h)
+  have hlen := hi.len
+  constructor
+  · simp only [escapeName, hi.oob, cap, Bool.false_or]; exact decide_eq_false (by omega)
+  · simpa [escapeName, nbInit] using ho
+
+example : (escapeStr b!"a\"b\\c").length ≤ 2046 := by decide
+
+/-- S3 witness, for every name: when the escaped name has 2048 bytes or more, the code as
+    it is stores outside `name_buf` (at the latest the terminating NUL). -/
+theorem c15_prefix_name_buf_overflow_witness (name : List Nat) (h : 2048 ≤ (escapeStr name).length) :
+    (escapeName false name).oob = true := by
+  have hp := nameLoop_false_pos name nbInit
+  have : cap ≤ (nameLoop false nbInit name).pos := by rw [hp]; simp only [nbInit, cap]; omega
+  simp [escapeName, this]
+
+set_option maxRecDepth 100000 in
+example : 2048 ≤ (escapeStr (List.replicate 2048 97)).length := by decide
+
+set_option maxRecDepth 100000 in
+/-- S3 witness inside the buffer: 2045 letters and a double quote escape to 2047 bytes; the
+    last `vsnprintf` has room for one character, so the name ends in a lone backslash —
+    no store is out of bounds, and the text is not a JSON string body (it swallows the
+    closing quote). -/
+theorem c15_prefix_name_buf_cut_witness :
+    (escapeName false (List.replicate 2045 97 ++ [34])).oob = false ∧
+    validBody (escapeName false (List.replicate 2045 97 ++ [34])).out = false := by decide
+
+/-! ## the chrome document -/
+
+/-- FULL (repaired code): `dump --chrome` is a valid JSON text for every executable name,
+    command line, task list and event list — whatever bytes occur in names, comm or the
+    command line, with or without events.  Hypotheses: the info file has the CMDLINE bit
+    (always written by `uftrace record`), and the two build/run constants that are printed
+    with %s (UFTRACE_VERSION, ctime() of the info file) are string bodies. -/
+theorem c15_chrome_valid (d : Doc) (c : List Nat) (hc : d.cmdline = some c)
+    (hv : validBody d.version = true) (hd : validBody d.date = true) :
+    validJson (chromeOutput true d) = true := by
+  have h1 := header_run (commOf d.exename) d.tasks
+  have h2 := evs_run d.evs (headerFix (commOf d.exename) d.tasks).2
+  have h3 := footer_run ((headerFix (commOf d.exename) d.tasks).2 || !d.evs.isEmpty) d.version d.date c hv hd
+  have := run_trans (run_trans h1 h2) h3
+  simp only [validJson, chromeOutput, header, ↓reduceIte, hc, this]
+  rfl
+
+/-- and no event name leaves the name buffer -/
+theorem c15_chrome_no_overflow (d : Doc) : chromeOob true d = false := by
+  simp only [chromeOob, List.any_eq_false]
+  intro e _
+  simp [(c15_name_buf_safe e.name).1]
+
+example : validBody b!" ( x86_64 dwarf python3 luajit tui perf sched kernel )" = true ∧
+    validBody b!"Mon Sep 21 14:13:20 2026" = true := by decide
+
+/-- F9 witness (comm): executable `q"x`, one task, one event: the header prints comm raw -/
+theorem c15_prefix_comm_quote_witness :
+    validJson (chromeOutput false
+      { exename := b!"/synth/q\"x", version := b!"v", date := b!"d", cmdline := some b!"c",
+        tasks := [⟨1, 1⟩], evs := [⟨true, 1, 1, b!"main", 2000⟩] }) = false := by decide
+
+/-- F9 witness (footer): a backslash in the command line is printed raw (`a\ b` is not a
+    JSON escape) -/
+theorem c15_prefix_cmdline_backslash_witness :
+    validJson (chromeOutput false
+      { exename := b!"/synth/prog", version := b!"v", date := b!"d", cmdline := some b!"a\\ b",
+        tasks := [⟨1, 1⟩], evs := [⟨true, 1, 1, b!"main", 2000⟩] }) = false := by decide
+
+/-- F9b witness: no event survives the filters — the metadata lines end in ",\n" and the
+    array closes right after the comma -/
+theorem c15_prefix_empty_trace_witness :
+    validJson (chromeOutput false
+      { exename := b!"/synth/prog", version := b!"v", date := b!"d", cmdline := some b!"c",
+        tasks := [⟨1, 1⟩], evs := [] }) = false := by decide
+
+/-- the same three documents are valid with the repairs (instances of `c15_chrome_valid`) -/
+example : validJson (chromeOutput true
+      { exename := b!"/synth/q\"x", version := b!"v", date := b!"d", cmdline := some b!"a\\ b",
+        tasks := [⟨1, 1⟩], evs := [] }) = true := by decide
+
+/-! ## path aggregation -/
+
+/-- For every sequence of callback invocations (any number of tasks, any interleaving,
+    recursion, calls closed by the "remaining functions" loop), with or without the flame
+    graph's exit callback, and for every call path `q`: the trie node reached by the names of
+    `q` has nr_calls = number of calls with call path `q` and time = sum of the total times
+    handed over at their exits.  (The call path of a record is the stack of names of its task,
+    `annot`; a path that never occurred reads as 0.) -/
+theorem c15_path_count_time (sample : Option Nat) (rn : Name) (os : List Out) (q : Path) :
+    callsN (build sample (G.init rn) os).root q = callsAt q (annot (fun _ => []) os) ∧
+    timeN (build sample (G.init rn) os).root q = timeAt q (annot (fun _ => []) os) := by
+  obtain ⟨_, h⟩ := build_counts sample os (G.init rn) (valid_init rn)
+  have h0 : callsN (G.init rn).root q = 0 ∧ timeN (G.init rn).root q = 0 := by
+    cases q with
+    | nil => simp [callsN, timeN, G.init, Node.get]
+    | cons y r => simp [callsN, timeN, G.init, get_cons, Nodes.find]
+  have := h q
+  simp only [h0.1, h0.2, Nat.zero_add] at this
+  simpa [G.init] using this
+
+/-- induction over call trees: the records of a forest of closed calls of one task
+    (entry, callees, exit — as libmcount writes them), read back through the time accounting
+    of `fstack` and aggregated, give for every call path `q`: nr_calls = number of calls of
+    the forest with call path `q`, time = sum of their durations `t1 - t0`. -/
+theorem c15_path_count_time_tree (sample : Option Nat) (rn : Name) (tid : Nat) (cs : Calls) (q : Path) :
+    callsN (build sample (G.init rn) (outs [tid] (cs.recs tid))).root q = cs.countAt [] q ∧
+    timeN (build sample (G.init rn) (outs [tid] (cs.recs tid))).root q = cs.durAt [] q := by
+  have h := c15_path_count_time sample rn (outs [tid] (cs.recs tid)) q
+  rw [outs_calls] at h ⊢
+  have a := Calls.annot_counts tid q cs (fun _ => []) []
+  simp only [List.append_nil, annot, callsAt, timeAt, List.filter_nil, List.length_nil, List.map_nil,
+    List.sum_nil, Nat.add_zero] at a
+  simp only [callsAt, timeAt] at h
+  exact ⟨h.1.trans a.1, h.2.trans a.2⟩
+
+/-- main(){ f(){g()} f(){} }: path [main, f] has 2 calls, 30 + 5 ns -/
+example :
+    let cs : Calls := .cons (.node b!"main" 0 100 (.cons (.node b!"f" 10 40 (.cons (.node b!"g" 20 30 .nil) .nil))
+      (.cons (.node b!"f" 50 55 .nil) .nil))) .nil
+    cs.countAt [] [b!"main", b!"f"] = 2 ∧ cs.durAt [] [b!"main", b!"f"] = 35 := by decide
+
+/-! ## flame graph, graphviz, mermaid -/
+
+/-- `dump --flame-graph` (repaired count formatting) for the trie built from any callback
+    sequence: the text is one line per entry; there is at most one entry per call path; `(p, s)`
+    is an entry iff the trie has a node at the non-empty path `p` whose printed number
+    (nr_calls without sampling, (time - child_time) / sample_time with sampling) is `s ≠ 0`;
+    and without sampling `s` is the number of calls with call path `p`. -/
+theorem c15_flame_lines (st : Nat) (rn : Name) (os : List Out) :
+    let root := (build (some st) (G.init rn) os).root
+    flameText true st root = (flameEntries st root).flatMap (fun x => flameLine true x.1 x.2) ∧
+    ((flameEntries st root).map (·.1)).Nodup ∧
+    (∀ p s, (p, s) ∈ flameEntries st root ↔
+      p ≠ [] ∧ ∃ n, root.get p = some n ∧ sampleOf st n = s ∧ s ≠ 0) ∧
+    (st = 0 → ∀ p s, (p, s) ∈ flameEntries st root → s = callsAt p (annot (fun _ => []) os)) := by
+  intro root
+  have hu : root.uniq := uniq_build (some st) os (G.init rn) (uniq_init rn)
+  have hiff : ∀ p s, (p, s) ∈ flameEntries st root ↔
+      p ≠ [] ∧ ∃ n, root.get p = some n ∧ sampleOf st n = s ∧ s ≠ 0 := by
+    intro p s
+    simp only [flameEntries, List.mem_map, List.mem_filter, decide_eq_true_eq, Prod.mk.injEq]
+    constructor
+    · rintro ⟨e, ⟨he, hne⟩, rfl, rfl⟩
+      obtain ⟨h1, h2, _⟩ := walk_sound root hu e he
+      exact ⟨h1, e.2.2, h2, rfl, hne⟩
+    · rintro ⟨hp, n, hg, rfl, hne⟩
+      obtain ⟨par, hm⟩ := walk_complete root p n hp hg
+      exact ⟨(par, p, n), ⟨hm, hne⟩, rfl, rfl⟩
+  refine ⟨flameText_eq true st root, ?_, hiff, ?_⟩
+  · have hs : ((flameEntries st root).map (·.1)) =
+        ((walk root).filter (fun e => sampleOf st e.2.2 ≠ 0)).map (fun e => e.2.1) := by
+      simp [flameEntries, List.map_map, Function.comp_def]
+    rw [hs]
+    exact List.Nodup.sublist (List.Sublist.map _ List.filter_sublist) (walk_nodup root hu)
+  · intro h0 p s hm
+    obtain ⟨_, n, hg, hs, _⟩ := (hiff p s).1 hm
+    have := (c15_path_count_time (some st) rn os p).1
+    simp only [callsN] at this
+    rw [show (build (some st) (G.init rn) os).root = root from rfl, hg] at this
+    subst h0
+    simp only [sampleOf, ne_eq, not_true_eq_false, and_false, ↓reduceIte] at hs
+    simp only [Option.map_some, Option.getD_some] at this
+    omega
+
+/-- F9c witness: function "f" called 25 times without sampling: the line is "f 2" -/
+theorem c15_prefix_flame_digits_witness :
+    flameLine false [b!"f"] 25 = b!"f 2\n" ∧ flameLine true [b!"f"] 25 = b!"f 25\n" := by decide
+
+/-- `dump --graphviz` / `--mermaid` for the trie built from any callback sequence: every
+    visited (parent, path, node) — mermaid prints all of them, graphviz those with
+    nr_calls ≠ 0, each once — is the trie node at that path, its label nr_calls is the number
+    of calls with that call path, its name is the last function of the path and the parent
+    shown is the caller on that path (the program name for top-level functions); every
+    call path that occurred is visited; no path is visited twice. -/
+theorem c15_edge_counts (rn : Name) (os : List Out) :
+    let root := (build none (G.init rn) os).root
+    (∀ e ∈ walk root,
+      e.2.2.calls = callsAt e.2.1 (annot (fun _ => []) os) ∧
+      (∃ h : e.2.1 ≠ [], e.2.2.name = e.2.1.getLast h) ∧
+      (e.2.1.dropLast = [] → e.1.name = rn) ∧
+      (∀ h : e.2.1.dropLast ≠ [], e.1.name = e.2.1.dropLast.getLast h)) ∧
+    (∀ p, p ≠ [] → callsAt p (annot (fun _ => []) os) ≠ 0 → ∃ e ∈ walk root, e.2.1 = p) ∧
+    ((walk root).map (fun e => e.2.1)).Nodup ∧
+    (∀ version cmdline, ∃ hd, graphvizText version cmdline root =
+      hd ++ (gvEdges root).flatMap (fun x => graphvizLine x.1 x.2.1 x.2.2) ++ b!"}\n") := by
+  intro root
+  have hu : root.uniq := uniq_build none os (G.init rn) (uniq_init rn)
+  have hname : root.name = rn := by
+    exact name_build none os (G.init rn)
+  refine ⟨?_, ?_, walk_nodup root hu, ?_⟩
+  · intro e he
+    obtain ⟨h1, h2, h3⟩ := walk_sound root hu e he
+    have hc := (c15_path_count_time none rn os e.2.1).1
+    simp only [callsN] at hc
+    rw [show (build none (G.init rn) os).root = root from rfl, h2] at hc
+    refine ⟨by simpa using hc, ⟨h1, get_name h1 h2⟩, ?_, ?_⟩
+    · intro hd
+      rw [hd] at h3
+      simp only [Node.get, Option.some.injEq] at h3
+      rw [← h3]; exact hname
+    · intro hd
+      exact get_name hd h3
+  · intro p hp hc
+    have := (c15_path_count_time none rn os p).1
+    rw [show (build none (G.init rn) os).root = root from rfl] at this
+    simp only [callsN] at this
+    cases hg : root.get p with
+    | none => simp [hg] at this; omega
+    | some n =>
+      obtain ⟨par, hm⟩ := walk_complete root p n hp hg
+      exact ⟨_, hm, rfl⟩
+  · intro version cmdline
+    unfold graphvizText
+    rw [graphvizText_eq version cmdline root]
+    exact ⟨_, rfl⟩
+
+/-! ## chrome events -/
+
+/-- For a well-formed record sequence (per task the time does not go back and every EXIT
+    closes the innermost open call of its task) the callbacks of `dump --chrome` see every
+    record in order with its own time stamp (printed as time/1000 "." time%1000 in 3 digits,
+    `tsText`), followed by one EXIT per call still open; and for every task of the info
+    file the begin/end events are balanced and properly nested: each E closes the innermost
+    open B of the same function, nothing stays open. -/
+theorem c15_chrome_balanced (tids : List Nat) (recs : List Rec) (hw : WF RS.init recs) :
+    (∃ tail, outs tids recs = (replay RS.init recs).2 ++ tail ∧
+      (replay RS.init recs).2.map (fun o => (⟨o.tid, o.entry, o.name, o.time⟩ : Rec)) = recs ∧
+      (∀ o ∈ tail, o.entry = false ∧ o.tid ∈ tids)) ∧
+    ∀ t ∈ tids, balRun [] (evsOf t (outs tids recs)) = some [] := by
+  have hs0 : Started RS.init := by intro t f hf; simp [RS.init] at hf
+  obtain ⟨hs, hb⟩ := replay_balanced recs RS.init hw hs0
+  constructor
+  · refine ⟨tails (replay RS.init recs).1 tids, rfl, replay_faithful recs RS.init, ?_⟩
+    have hgen : ∀ (ts : List Nat) (s : RS), ∀ o ∈ tails s ts, o.entry = false ∧ o.tid ∈ ts := by
+      intro ts
+      induction ts with
+      | nil => intro s o h; simp [tails] at h
+      | cons t ts ih =>
+        intro s o h
+        simp only [tails, List.mem_append] at h
+        rcases h with h | h
+        · have htid := tailTask_tid t (s.last t) (s.stacks t) 0 o h
+          have hent : ∀ (stk : List Frame) (c : Nat), ∀ o ∈ tailTask t (s.last t) c stk, o.entry = false := by
+            intro stk
+            induction stk with
+            | nil => intro c o h; simp [tailTask] at h
+            | cons f r ih2 =>
+              intro c o h
+              simp only [tailTask] at h
+              split at h
+              · exact ih2 _ o h
+              · simp only [List.mem_cons] at h
+                rcases h with h | h
+                · subst h; rfl
+                · exact ih2 _ o h
+          exact ⟨hent _ _ o h, by simp [htid]⟩
+        · obtain ⟨a, b⟩ := ih _ o h
+          exact ⟨a, by simp [b]⟩
+    exact hgen tids _
+  · intro t ht
+    have h1 := hb t
+    have h2 := tails_balanced tids (replay RS.init recs).1 hs t
+    simp only [outs, evsOf_append, balRun_append]
+    have h1' : balRun [] (evsOf t (replay RS.init recs).2) = some (names ((replay RS.init recs).1.stacks t)) := h1
+    rw [h1']
+    simpa [ht] using h2
+
+/-- non-vacuity: main { f { } g { (still open) — two tasks interleaved -/
+example : WF RS.init [⟨1, true, b!"main", 10⟩, ⟨2, true, b!"main", 11⟩, ⟨1, true, b!"f", 12⟩,
+    ⟨1, false, b!"f", 15⟩, ⟨1, true, b!"g", 15⟩] := by
+  simp [WF, stepRec, RS.init, setFn]
+
 end Uft.C15
